@@ -209,7 +209,10 @@ Create ==
 
 CreateFaults ==
     \E p \in objs \cup {FILE}, k \in { "block", "group", "array", "frame", "tag", "mtag", "source", "section", "property" },
-       why \in { "EmptyName", "SlashName", "EmptyType" } :
+       why \in { "EmptyName", "SlashName", "EmptyType", "BadArgument" } :
+          \* BadArgument: a free name, but an argument of the wrong kind - an unknown element type or unconvertible
+          \* data (array), a cell that does not fit its column (frame), a non-numeric position (tag, multi-tag)
+          /\ (why = "BadArgument" => k \in { "array", "frame", "tag", "mtag" })
           /\ ~(k = "property" /\ why = "EmptyType")
           /\ ~(p = FILE /\ why = "EmptyName")      \* File.create_block / create_section generate a name: not a refusal
           /\ CreateBadName(k, p, why)
@@ -287,6 +290,18 @@ LinkAppend(o, l, x) ==
             /\ rec' = [rec EXCEPT ![o].ls[l] = Append(SeqRemove(@, x), x)]
             /\ Log(a) /\ UNCHANGED << objs, next, clock, auto, fts >>
 
+\* extend([x, y]) is all or nothing: a legal item followed by an illegal one refuses the whole call
+LegalItem(o, l, x) == Kind(x) = ListKind(l) /\ BlockOf(x) = BlockOf(o)
+LinkExtend(o, l, x, y) ==
+    LET a == [name |-> "LinkExtend", o |-> o, l |-> l, x |-> x, y |-> y, out |-> "ok"] IN
+    /\ CanStep /\ "extend" \in Ops /\ o \in objs /\ x \in objs /\ y \in objs /\ x # y /\ l \in ListsOf(Kind(o))
+    /\ Kind(x) \notin { "feature", "property" } /\ Kind(y) \notin { "feature", "property" }
+    /\ LegalItem(o, l, x)
+    /\ IF ~LegalItem(o, l, y)
+         THEN ("WrongKind" \in Faults \/ "ForeignBlock" \in Faults) /\ Refuse(a, "refused:BadItem")
+         ELSE /\ rec' = [rec EXCEPT ![o].ls[l] = Append(SeqRemove(Append(SeqRemove(@, x), x), y), y)]
+              /\ Log(a) /\ UNCHANGED << objs, next, clock, auto, fts >>
+
 LinkRemove(o, l, x) ==
     LET a == [name |-> "LinkRemove", o |-> o, l |-> l, x |-> x, out |-> "ok"] IN
     /\ CanStep /\ o \in objs /\ l \in ListsOf(Kind(o)) /\ InSeq(rec[o].ls[l], x)
@@ -328,6 +343,7 @@ ClearPositions(o) ==
     /\ Refuse(a, "refused:Required")
 
 Link == \/ \E o \in objs, l \in ListNames, x \in objs : LinkAppend(o, l, x) \/ LinkRemove(o, l, x) \/ LinkRemoveAbsent(o, l, x)
+        \/ \E o \in objs, l \in ListNames, x \in objs, y \in objs : LinkExtend(o, l, x, y)
         \/ \E o \in objs, r \in RoleNames, x \in objs : SetRole(o, r, x)
         \/ \E o \in objs, r \in RoleNames : ClearRole(o, r)
         \/ \E o \in objs : ClearPositions(o)
